@@ -81,6 +81,18 @@ def dom_closure(idom, n):
 
 EXIT = -1
 
+# functions that return their argument unchanged (branch hints)
+PASS_THROUGH = (
+    "core::convert::identity",
+    "core::intrinsics::likely",
+    "core::intrinsics::unlikely",
+    "core::hint::likely",
+    "core::hint::unlikely",
+    "core::hint::black_box",
+    "util::likely",
+    "util::unlikely",
+)
+
 
 class Body:
     def __init__(self, facts, j):
@@ -367,6 +379,11 @@ class Body:
                 return
             for d in ds:
                 if d[0] == "call":
+                    cp = callee_path(d[3])
+                    if cp in PASS_THROUGH:
+                        for a in d[3]["args"]:
+                            go_op(a, depth + 1)
+                        continue
                     out.append(("call", d[1], d[3]))
                 elif d[3]["k"] == "assign":
                     go_rv(d[3]["rv"], depth + 1, d)
